@@ -605,6 +605,7 @@ void tame(Plan &p, const GenCfg &cfg) {
       }
     }
     if (cfg.large) {
+      op.params.byEffort = 0;  // the int overloads ignore the step limit set below
       bool f = false;
       for (auto &kv : op.params.ov)
         if (kv.first == "g.maxNbSteps") {
